@@ -24,6 +24,7 @@ RULE = ("histories: drawn traffic (all sizes / retry modes / both APIs, a callba
         "or data datagram was lost or delayed past the resend interval while a callback was pending; distinct by "
         "(retry mode, size class, rtt bucket, fault class, seed).")
 RULE += (" " + 'Round-8 additions (shared reliability histories, also C05 / C06 layer 2): client socket send faults (a refused sendto is logged as emitted and lost); in half of the histories without early sends the datagram counters of both directions are positioned at 65490 / 65515 / 65530 once the handshake is over (white-box write as in C03 / C04; datagrams of the old numbering are resolved first and never replayed).')
+RULE += (" " + 'Round-9 addition (shared reliability histories): in a third of the histories, once everything is resolved, the application disconnects and calls connect() again on the same UdpClient object from the same address; both sides then send six guaranteed messages (12 bytes .. 9000 bytes) over a perfect link: each is delivered exactly once with exactly one callback(True).')
 ASSUMPTIONS = [
     "BEST_EFFORT callbacks may legitimately fire several times (documented); only truthfulness is demanded of them",
     "exactly-once is demanded only in histories where the connection stayed open",
